@@ -43,6 +43,10 @@ def _single_crossing(case):
     return b["op"] == "Cross"
 
 
+def _has_named_latin_square(c):
+    return False      # the IR's LatinSquare constraints carry no name: the sectioned layout is never produced
+
+
 def run_output(prop, tier, seed, want_tabs):
     t0 = time.time()
     cov, out, err = Coverage(), [], None
@@ -120,6 +124,12 @@ def run_output(prop, tier, seed, want_tabs):
                         tcases.append({"kind": "conv", "order": rec["order"], "exps": rec["exps"], "tuples": rec["tuples"],
                                        "dicts": rec["dicts"], "csv": rec["csv"], "bytes": bm, "exposed": rec["exposed"]})
                         keep.append((c, op, rec))
+                        if not _has_named_latin_square(c):
+                            idx = ["%d:" % k for k in range(len(rec["exps"]))]
+                            bm2 = _bytes_map(set(bm.keys()) | set(idx) | {"Experiment", str(len(rec["exps"]))})
+                            tcases.append({"kind": "print", "order": rec["order"], "exps": rec["exps"], "stdout": rec["print"],
+                                           "bytes": bm2, "idx": idx, "count": str(len(rec["exps"]))})
+                            keep.append((c, dict(op, tag=op.get("tag", "") + "/print"), rec))
                     else:
                         for tb in rec["tabs"]:
                             fids = tb["factors"] or c["block"]["crossing"]
